@@ -284,6 +284,7 @@ pub fn run(ctx: &mut Ctx) {
     formats(ctx);
     ctx.stage("layout transformations of compiler output: U-SCALE");
     for (_name, prog) in super::super::universes::scale::programs(!ctx.quick()) { if ctx.take().is_some() { transformed(ctx, "U-SCALE", &prog, false) } }
+    for (_name, prog) in super::super::universes::scale::programs_u16() { if ctx.take().is_some() { transformed(ctx, "U-SCALE", &prog, false) } }
     ctx.stage("layout transformations of compiler output: U-PAIR(d=2)");
     let ts = pair::templates(); let fs = pair::fillers();
     for t in &ts { for f in &fs {
